@@ -2163,6 +2163,11 @@ def crosscov_vector(x, y, nlags=None):
     rxy : ndarray (nc, nc, nlags)
 
     """
+    # The lagged products are taken in floating point (products of samples of
+    # a small integer dtype wrap around):
+    x = np.asarray(x, dtype=np.result_type(np.asarray(x).dtype, float))
+    y = np.asarray(y, dtype=np.result_type(np.asarray(y).dtype, float))
+
     N = x.shape[1]
     if nlags is None:
         nlags = N
